@@ -32,6 +32,10 @@ LEVEL_NOTE = (
     'correspondence, not proved equal to the Python); strict operators inside the generated formulas are an '
     'uninterpreted parameter of the Spec interpreter. Text and array conditions are outside the statement.')
 DESIGN_REF = '§4 C10'
+
+# theorems of the integrated pipeline model (Props/X01.lean) that carry this property's theorems to formula TEXTS in a
+# compiled workbook; re-built and audited with this check (harness/common.prepare: soft obligations)
+TRANSPORT = ('XlVerif.Props.X01', ['X01_IF_lazy_tree', 'X01_IF_lazy_partial'])
 TRUSTED = [
     'Lean 4.33 kernel; axioms propext, Classical.choice, Quot.sound only',
     'hand-written model lean/XlVerif/Model/C10.lean of logical.py and of the Expr thunks of FunctionNode.eval, '
